@@ -133,4 +133,14 @@ TEXTS = {
         'note': ('Global statement (all tensors on a buffer agree after the whole run) is validated by the oracle, '
                  'not proved. Axioms: none.'),
     },
+    'C08': {
+        'level': ('Theorem (finite decision table over the REGENERATED shipped recipes, policy and registry, lifted to all '
+                  'graphs): every shipped default recipe loads and resolves every operator name either to no-quantize or to '
+                  'a config with a registered materializer, a defined per-operand transformation, no block-wise weights and '
+                  'an accepted fixed-range width - so the recipe-dependent raise sites of plan generation are unreachable. '
+                  'Graph-dependent raise sites: correspondences P and I/T/E (same exception or same model) plus an end-to-end '
+                  'oracle driving Quantizer/calibrate/quantize with every shipped recipe on generated graphs.'),
+        'note': ('Rejection of conflicting shared constants is a genuine defect w.r.t. this property (known findings F17, '
+                 'F18, keyed by cause so that any other rejection is still reported). Axioms: none.'),
+    },
 }
